@@ -106,7 +106,7 @@ class Gate:
 
     @staticmethod
     def transform(traces):
-        return traces.astype('float64') * 2 + 1 if traces.dtype.kind == 'f' else traces * 2 + 1
+        return traces * 2 + 1          # keeps the dtype and the memory layout of the batch (small integers: exact in every type used)
 
     def for_set(self, i):
         """the preprocess placed in the container of trace set i (1 or 2): whichever thread processes the batch, it is a batch of set i"""
